@@ -235,6 +235,18 @@ def bounded(tier, seed):
         if v and len(failures) < 10:
             failures.append({"inputs": {"parts": [[p[0], p[1], p[2], p[3].decode("latin-1")] for p in uparts], "boundary": "bnd",
                                         "chunks": [c.decode("latin-1") for c in chunks]}, "violated": v[:3]})
+    # names, filenames and part-header values holding VT, FF, FS, GS, RS, NEL, LS, PS: characters a TEXT splitlines() would split
+    # at, but which are ordinary content of a header line (only CR / LF / CRLF end one)
+    for odd in ("\x0b", "\x0c", "\x1c", "\x1d", "\x1e", "\x85", "\u2028", "\u2029"):
+        oparts = [("pa" + odd + "ge", None, None, b"v"), ("f", "Q3" + odd + "r: x.txt", "text/plain", b"data " + odd.encode("utf-8"))]
+        obody = encode(oparts, b"bnd")
+        for chunks in ([obody], [obody[:40], obody[40:]], [bytes([b]) for b in obody]):
+            evals += 1
+            v = check_body(oparts, b"bnd", chunks, True)
+            distinct.add((b"bnd", odd.encode("utf-8"), len(chunks)))
+            if v and len(failures) < 10:
+                failures.append({"inputs": {"parts": [[p[0], p[1], p[2], p[3].decode("latin-1")] for p in oparts], "boundary": "bnd",
+                                            "chunks": [c.decode("latin-1") for c in chunks]}, "violated": v[:3]})
     # zero parts, LF-only line breaks, unicode names
     for parts, nl in (([], b"\r\n"), ([("n", None, None, b"v")], b"\n"), ([("é", "ü.txt", "text/plain", b"\xff\x00")], b"\r\n")):
         body = encode(parts, b"bnd", nl=nl)
